@@ -24,6 +24,8 @@ def cond_text(c, rnd, kw):
         return rnd.choice([f"{kw} {c['m']} == {c['n']}", f"{kw} ({c['m']}) == {c['n']}", f"{kw} {c['n']} == {c['m']}"])
     if t == "defand":
         return rnd.choice([f"{kw} defined({c['m']}) && {c['m2']}", f"{kw} defined {c['m']} && ({c['m2']})"])
+    if t == "plus":
+        return rnd.choice([f"{kw} {c['m']} + 0", f"{kw} ({c['m']} + 0) != 0", f"{kw} {c['m']} +0"])
     if t == "const":
         return f"{kw} {c['n']}"
     if t == "bad":
